@@ -110,6 +110,15 @@ example : ([(2, (⟨[1, 0], []⟩ : ClassDef)), (0, ⟨[], []⟩), (1, ⟨[0], [
     (([(2, (⟨[1, 0], []⟩ : ClassDef)), (0, ⟨[], []⟩), (1, ⟨[0], []⟩)] : List (Name × ClassDef)).map Prod.fst).Nodup := by
   decide
 
+/-- … also with a redefinition of one class after them: every permutation of the original forms
+    followed by the new form of `a` gives the same final state. -/
+theorem order_independent_with_redefinition (h1 h2 : List (Name × ClassDef)) (hp : h1.Perm h2)
+    (hn : (h1.map Prod.fst).Nodup) (a : Name) (d' : ClassDef) (c : Name) :
+    inhOf (run (h1 ++ [(a, d')])) c = inhOf (run (h2 ++ [(a, d')])) c ∧
+    defOf (run (h1 ++ [(a, d')])) c = defOf (run (h2 ++ [(a, d')])) c := by
+  apply order_independent_defs
+  rw [lastDef_append, lastDef_append, lastDef_perm hp hn]
+
 /-- … and therefore the same observations: precedence list, typep, applicable methods and
     make-instance agree for the two histories. -/
 theorem order_independent_observations (h1 h2 : List (Name × ClassDef))
